@@ -327,7 +327,10 @@ impl Engine for ValEngine {
     }
 
     fn run_impl(&self, ops: &[String], out: &mut Vec<String>) {
+        // the host side holds raw values across operations (no guards): give the VM a limit that
+        // no case reaches, so that no collection runs while the harness builds and compares values
         let mut vm = Vm::new(()).unwrap();
+        vm.runtime_data = cao_lang::vm::runtime::RuntimeData::new(1 << 30, 1024, 256).unwrap();
         for op in ops {
             let a = args(op);
             let vals: Vec<Value> = a[1..].iter().map(|t| build(&mut vm, &OV::parse(t).unwrap()).unwrap()).collect();
@@ -501,7 +504,9 @@ impl Engine for TblEngine {
     }
 
     fn run_impl(&self, ops: &[String], out: &mut Vec<String>) {
+        // (see ValEngine: raw values are held across operations, so no collection may run)
         let mut vm = Vm::new(()).unwrap();
+        vm.runtime_data = cao_lang::vm::runtime::RuntimeData::new(1 << 30, 1024, 256).unwrap();
         let mut t: Option<std::ptr::NonNull<cao_lang::vm::runtime::cao_lang_object::CaoLangObject>> = None;
         for op in ops {
             let a = args(op);
